@@ -1,6 +1,7 @@
 package rules
 
 import (
+	"go/ast"
 	"go/token"
 	"go/types"
 	"strings"
@@ -613,4 +614,175 @@ func callsRecover(f *ssa.Function) bool {
 		}
 	}
 	return false
+}
+
+// ---------------------------------------------------------------------------
+// literalsAreAssembledInSourceOrder: the operands of a list, map or set
+// literal lie on the stack in source order, the first one deepest, and are
+// popped last to first.  The clause that assembles them puts each popped
+// value where its position in the source says (index count-1-i), and enters
+// pairs into a map only after that: entered in the order of popping, the
+// first of two equal keys is entered last and wins ({"a": 1, "a": 2} is
+// {"a": 1}), and the error of a set literal is that of its last bad item.
+func literalsAreAssembledInSourceOrder(c *core.Ctx) {
+	p := c.P
+	t := VMTable(p)
+	info := p.Pkg("vm").TypesInfo
+	pop := t.Prims["pop"]
+	n := 0
+	for _, cc := range t.Switch.Body.List {
+		cl := cc.(*ast.CaseClause)
+		if cl.List == nil {
+			continue
+		}
+		name := exprStr(cl.List[0])
+		k := 0
+		for _, s := range cl.Body {
+			ast.Inspect(s, func(nd ast.Node) bool {
+				fs, ok := nd.(*ast.ForStmt)
+				if !ok {
+					return true
+				}
+				// the loop variable
+				var loopVar types.Object
+				if as, ok := fs.Init.(*ast.AssignStmt); ok && len(as.Lhs) == 1 {
+					if id, ok := as.Lhs[0].(*ast.Ident); ok {
+						loopVar = info.Defs[id]
+					}
+				}
+				// a loop that counts down stores at its own index in source order
+				if ids, ok := fs.Post.(*ast.IncDecStmt); ok && ids.Tok == token.DEC {
+					loopVar = nil
+				}
+				popsInLoop := false
+				ast.Inspect(fs.Body, func(n2 ast.Node) bool {
+					if ce, ok := n2.(*ast.CallExpr); ok && calleeOf(info, ce) == pop {
+						popsInLoop = true
+					}
+					return true
+				})
+				if !popsInLoop {
+					return true
+				}
+				n++
+				k++
+				bad := ""
+				ast.Inspect(fs.Body, func(n2 ast.Node) bool {
+					as, ok := n2.(*ast.AssignStmt)
+					if !ok {
+						return true
+					}
+					for _, l := range as.Lhs {
+						ix, ok := ast.Unparen(l).(*ast.IndexExpr)
+						if !ok {
+							continue
+						}
+						tv := info.TypeOf(ix.X)
+						if tv == nil {
+							continue
+						}
+						switch tv.Underlying().(type) {
+						case *types.Map:
+							bad = "enters a pair into a map at " + p.Pos(as.Pos()) + " in the order of popping, which is the reverse of the source order"
+						case *types.Slice, *types.Array, *types.Pointer:
+							if id, ok := ast.Unparen(ix.Index).(*ast.Ident); ok && loopVar != nil && info.Uses[id] == loopVar {
+								bad = "stores the popped value at index " + id.Name + " at " + p.Pos(as.Pos()) + ": the value popped first is the last one of the source"
+							}
+						}
+					}
+					return true
+				})
+				c.Check(bad == "", "vm:"+name+"|operands-in-source-order|"+sprintf("%d", k), p.Pos(fs.Pos()),
+					"the clause of "+name+" pops its operands in a loop"+ife(bad == "", " and puts each where its position in the source says", " and "+bad+" ({\"a\": 1, \"a\": 2} evaluates to {\"a\": 1}; the error of {[1], {}} names the map)"))
+				return true
+			})
+		}
+	}
+	if n < 3 {
+		core.Undecidedf("only %d dispatch clauses pop operands in a loop", n)
+	}
+	c.Stat("operand_popping_loops", n)
+}
+
+// ---------------------------------------------------------------------------
+// walksOfOneListArePairedByPosition: where the compiler goes over the same
+// list of syntax nodes twice (emit the operands, then emit the stores), what
+// the first walk worked out for an item reaches the second walk by the item's
+// position, or is worked out again - not through a map keyed by an attribute
+// of the item that two items can share (`from m import a as x, a as y`: the
+// alias table keyed by the imported name keeps one alias, and x is never
+// bound).
+func walksOfOneListArePairedByPosition(c *core.Ctx) {
+	p := c.P
+	n := 0
+	for _, pk := range p.Pkgs {
+		if core.RelPkg(pk.Types) != "compiler" {
+			continue
+		}
+		info := pk.TypesInfo
+		funcBodies(pk, func(fn *types.Func, fd *ast.FuncDecl) {
+			// ranges in this function, by the text of what they range over
+			type rng struct {
+				stmt *ast.RangeStmt
+				text string
+			}
+			var ranges []rng
+			ast.Inspect(fd.Body, func(nd ast.Node) bool {
+				if rs, ok := nd.(*ast.RangeStmt); ok {
+					ranges = append(ranges, rng{rs, exprStr(rs.X)})
+				}
+				return true
+			})
+			if len(ranges) < 2 {
+				return
+			}
+			k := 0
+			for i := 0; i < len(ranges); i++ {
+				for j := i + 1; j < len(ranges); j++ {
+					if ranges[i].text != ranges[j].text || ranges[i].stmt.End() > ranges[j].stmt.Pos() {
+						continue
+					}
+					n++
+					k++
+					// a local map written in the first and read in the second
+					written := map[types.Object]ast.Node{}
+					ast.Inspect(ranges[i].stmt.Body, func(nd ast.Node) bool {
+						as, ok := nd.(*ast.AssignStmt)
+						if !ok {
+							return true
+						}
+						for _, l := range as.Lhs {
+							if ix, ok := ast.Unparen(l).(*ast.IndexExpr); ok {
+								if id, ok := ast.Unparen(ix.X).(*ast.Ident); ok {
+									if _, isMap := info.TypeOf(id).Underlying().(*types.Map); isMap {
+										if o := info.Uses[id]; o != nil && o.Parent() != pk.Types.Scope() {
+											written[o] = as
+										}
+									}
+								}
+							}
+						}
+						return true
+					})
+					bad := ""
+					ast.Inspect(ranges[j].stmt.Body, func(nd ast.Node) bool {
+						if ix, ok := nd.(*ast.IndexExpr); ok {
+							if id, ok := ast.Unparen(ix.X).(*ast.Ident); ok {
+								if o := info.Uses[id]; o != nil && written[o] != nil {
+									bad = "hands what the first walk worked out to the second through the map " + id.Name + " (written at " + p.Pos(written[o].Pos()) + ", read at " + p.Pos(ix.Pos()) + ")"
+								}
+							}
+						}
+						return true
+					})
+					c.Check(bad == "", qual(pk, fd)+"|"+ranges[i].text+"|paired-by-position|"+sprintf("%d", k), p.Pos(ranges[j].stmt.Pos()),
+						fd.Name.Name+" walks "+ranges[i].text+" twice"+ife(bad == "", " and pairs the two walks by position (or works things out again)", " and "+bad+": two items with the same key share one entry, and what belongs to the first of them is lost (`from m import a as x, a as y` leaves x unbound)"))
+				}
+			}
+		})
+	}
+	if n == 0 {
+		core.Undecidedf("no function of the compiler walks one list twice")
+	}
+	c.Stat("double_walks", n)
 }
